@@ -140,7 +140,13 @@ func (c *Conn) sendGlued(last *Pkt, raw []byte, glued []resp, eofAfter bool) {
 	base := c.nB2C
 	c.nB2C += len(glued) + 1
 	c.mu.Unlock()
-	d := us(s.sc.Cfg.LatB2CUs)
+	c.mu.Lock()
+	t0 := s.nowNs() + us(s.sc.Cfg.LatB2CUs)
+	if t0 <= c.busyUntil {
+		t0 = c.busyUntil + 1
+	}
+	c.busyUntil = t0
+	c.mu.Unlock()
 	fn := func() {
 		if c.isSilent() {
 			return
@@ -159,10 +165,12 @@ func (c *Conn) sendGlued(last *Pkt, raw []byte, glued []resp, eofAfter bool) {
 		}
 	}
 	if s.race {
+		c.sendMu.Lock()
 		fn()
+		c.sendMu.Unlock()
 		return
 	}
-	s.after(d, "b2c-glued", fn)
+	s.at(t0, "b2c-glued", fn)
 }
 
 func (b *Broker) handle(c *Conn, n int, p *Pkt) (out []resp, closeAfter bool) {
